@@ -67,6 +67,9 @@ def _fold_fstrings(e, env):
     return F().visit(copy.deepcopy(e))
 
 
+_MISSING = object()
+
+
 def _eval_trans(fname, stmts, env):
     def val(e):
         if isinstance(e, ast.Tuple):
@@ -77,6 +80,28 @@ def _eval_trans(fname, stmts, env):
                 return a + b
         if isinstance(e, ast.Name) and isinstance(env.get(e.id), list):
             return env[e.id]
+        if isinstance(e, (ast.GeneratorExp, ast.ListComp)) and len(e.generators) == 1 and not e.generators[0].ifs \
+                and isinstance(e.generators[0].target, ast.Name) and isinstance(e.generators[0].iter, (ast.Tuple, ast.List)) \
+                and all(isinstance(x, ast.Constant) for x in e.generators[0].iter.elts):
+            # (Expr.symbol(name) for name in ('ALPHA', 'BETA')): one element per listed constant
+            out_ = []
+            for c_ in e.generators[0].iter.elts:
+                saved = env.get(e.generators[0].target.id, _MISSING)
+                env[e.generators[0].target.id] = c_.value
+                try:
+                    out_.append(val(e.elt))
+                finally:
+                    if saved is _MISSING:
+                        env.pop(e.generators[0].target.id, None)
+                    else:
+                        env[e.generators[0].target.id] = saved
+            return out_
+        if isinstance(e, ast.Call) and dotted(e.func) in ('tuple', 'list') and len(e.args) == 1:
+            return val(e.args[0])
+        if isinstance(e, ast.Call) and dotted(e.func) in ('Expr.symbol', 'sympy.Symbol') and e.args \
+                and isinstance(e.args[0], ast.Name) and isinstance(env.get(e.args[0].id), str):
+            import sympy as _sp
+            return _sp.Symbol(env[e.args[0].id])
         if isinstance(e, ast.Constant) and isinstance(e.value, (int, str)) and not isinstance(e.value, bool):
             return e.value if isinstance(e.value, str) else T.to_sympy(e, env)
         senv = {k: v for k, v in env.items() if not isinstance(v, (list, str))}
@@ -94,6 +119,14 @@ def _eval_trans(fname, stmts, env):
                     env[s.targets[0].id] = s.value.value
                 else:
                     env[s.targets[0].id] = val(s.value)
+                continue
+            if isinstance(s, ast.Assign) and len(s.targets) == 1 and isinstance(s.targets[0], ast.Tuple) \
+                    and all(isinstance(t, ast.Name) for t in s.targets[0].elts):
+                vs = val(s.value)
+                if not isinstance(vs, list) or len(vs) != len(s.targets[0].elts):
+                    raise AnalysisError(f'{fname}: cannot unpack {unparse(s)[:60]}')
+                for t, v in zip(s.targets[0].elts, vs):
+                    env[t.id] = v
                 continue
             if isinstance(s, ast.If):
                 try:
